@@ -186,6 +186,42 @@ def replay_figures(index, ob, seed, saved=None):
                 and m.group(7).replace("\n", "") == src.hex() and (fmt == "emf" or (int(m.group(3)), int(m.group(4))) == exp_dims)
             if not ok:
                 return _r(True, input={"format": fmt, "alignment": al, "width": 3.3, "height": 2.2}, observed=out[:200], function="_encode_single_figure")
+    # encode_figure / rtf_read_figure / _read_image_data on real files: one picture per figure, in order, positional sizes, page breaks between
+    import os, tempfile, shutil
+    rtf = index.real_module("rtflite")
+    figmod = index.real_module("rtflite.figure")
+    tmp = tempfile.mkdtemp(prefix="verif_c16_")
+    try:
+        for n in (1, 2, 3, 4):
+            paths, blobs = [], []
+            for k in range(n):
+                ext = [".png", ".jpg", ".emf", ".jpeg"][(k + n) % 4]
+                blob = (png if ext == ".png" else jpg if ext in (".jpg", ".jpeg") else b"EMF") + bytes(rng.randrange(256) for _ in range(rng.randint(0, 90)))
+                pth = os.path.join(tmp, f"f{n}_{k}{ext}")
+                with open(pth, "wb") as f:
+                    f.write(blob)
+                paths.append(pth)
+                blobs.append(blob)
+                if figmod._read_image_data(__import__("pathlib").Path(pth)) != blob:
+                    return _r(True, input={"file_bytes_hex": blob.hex()[:120]}, observed="different bytes", function="_read_image_data")
+            widths = [round(rng.uniform(1, 6), 2) for _ in range(rng.randint(1, n + 1))]
+            heights = [round(rng.uniform(1, 6), 2) for _ in range(rng.randint(1, n + 1))]
+            out = fs.encode_figure(rtf.RTFFigure(figures=paths, fig_width=widths, fig_height=heights))
+            inp = {"suffixes": [os.path.splitext(p)[1] for p in paths], "fig_width": widths, "fig_height": heights}
+            if not out.endswith("\\par ") :
+                return _r(True, input=inp, observed=out[-40:], function="encode_figure", expected="closing \\par")
+            chunks = out[:-len("\\par ")].split("\\page ")
+            if len(chunks) != n:
+                return _r(True, input=inp, observed=f"{len(chunks)} page chunks", expected=n, function="encode_figure")
+            for k, ch in enumerate(chunks):
+                m = re.match(r"(\\q[clr] )\{\\pict(\\[a-z]+blip)\\picw(\d+)\\pich(\d+)\\picwgoal(\d+)\\pichgoal(\d+) ([0-9a-f\n]*)\}$", ch)
+                wk, hk = widths[min(k, len(widths) - 1)], heights[min(k, len(heights) - 1)]
+                ext = os.path.splitext(paths[k])[1]
+                blip = {".png": "\\pngblip", ".jpg": "\\jpegblip", ".jpeg": "\\jpegblip", ".emf": "\\emfblip"}[ext]
+                if not (m and m.group(2) == blip and m.group(7).replace("\n", "") == blobs[k].hex() and int(m.group(5)) == int(wk * 1440) and int(m.group(6)) == int(hk * 1440)):
+                    return _r(True, input=dict(inp, figure=k), observed=ch[:160], function="encode_figure")
+    finally:
+        shutil.rmtree(tmp, ignore_errors=True)
     return _r(False)
 
 
@@ -223,7 +259,53 @@ def replay_validators(index, ob, seed, saved=None):
         pass
     except Exception as e:
         return _r(True, input={"figures": "/nonexistent/figure.png"}, observed=type(e).__name__, expected="FileNotFoundError")
-    return _r(False, tried=len(probes))
+    # document-level rules (validate_column_names / validate_figure_data)
+    import os, tempfile, polars as pl
+    tmp = tempfile.mkdtemp(prefix="verif_c19_")
+    try:
+        png = os.path.join(tmp, "a.png")
+        with open(png, "wb") as f:
+            f.write(b"\x89PNG\r\n\x1a\n" + b"\x00\x00\x00\rIHDR" + (3).to_bytes(4, "big") + (2).to_bytes(4, "big") + b"\x08\x02\x00\x00\x00")
+        df = pl.DataFrame({"g": ["a", "b"], "x": ["1", "2"]})
+        df2 = pl.DataFrame({"h": ["a", "b"], "y": ["1", "2"]})
+        fig = lambda: rtf.RTFFigure(figures=png)
+        docs = [
+            ("a frame together with a figure", "ValueError", lambda: rtf.RTFDocument(df=df, rtf_figure=fig())),
+            ("neither a frame nor a figure", "ValueError", lambda: rtf.RTFDocument()),
+            ("two frames, one body", "ValueError", lambda: rtf.RTFDocument(df=[df, df2], rtf_body=[rtf.RTFBody()])),
+            ("one frame in a list, two bodies", "ValueError", lambda: rtf.RTFDocument(df=[df], rtf_body=[rtf.RTFBody(), rtf.RTFBody()])),
+            ("two frames, body not a list", "ValueError", lambda: rtf.RTFDocument(df=[df, df2], rtf_body=rtf.RTFBody())),
+            ("two frames, three nested header lists", "ValueError",
+             lambda: rtf.RTFDocument(df=[df, df2], rtf_body=[rtf.RTFBody(), rtf.RTFBody()], rtf_column_header=[[None], [None], [None]])),
+            ("group_by column missing", "ValueError", lambda: rtf.RTFDocument(df=df, rtf_body=rtf.RTFBody(group_by=["nope"]))),
+            ("page_by column missing", "ValueError", lambda: rtf.RTFDocument(df=df, rtf_body=rtf.RTFBody(page_by=["g", "nope"]))),
+            ("subline_by column missing", "ValueError", lambda: rtf.RTFDocument(df=df, rtf_body=rtf.RTFBody(subline_by=["nope"]))),
+            ("page_by column of the second section missing", "ValueError",
+             lambda: rtf.RTFDocument(df=[df, df2], rtf_body=[rtf.RTFBody(page_by=["g"]), rtf.RTFBody(page_by=["g"])])),
+            ("second figure file missing", "FileNotFoundError", lambda: rtf.RTFFigure(figures=[png, os.path.join(tmp, "missing.png")])),
+        ]
+        for what, want, make in docs:
+            try:
+                make()
+                got = "accepted"
+            except Exception as e:
+                got = type(e).__name__
+                if isinstance(e, {"ValueError": ValueError, "FileNotFoundError": FileNotFoundError}[want]):
+                    continue
+            return _r(True, input={"document": what}, observed=got, expected=want)
+        legal = [("figure document", lambda: rtf.RTFDocument(rtf_figure=fig())), ("path list kept in order", lambda: rtf.RTFFigure(figures=[png, png])),
+                 ("two matching sections", lambda: rtf.RTFDocument(df=[df, df2], rtf_body=[rtf.RTFBody(page_by=["g"]), rtf.RTFBody(page_by=["h"])]))]
+        for what, make in legal:
+            try:
+                obj = make()
+            except Exception as e:
+                return _r(True, input={"document": what}, observed=type(e).__name__, expected="accepted")
+            if what.startswith("path list") and [str(x) for x in obj.figures] != [png, png]:
+                return _r(True, input={"document": what}, observed=[str(x) for x in obj.figures], expected=[png, png])
+    finally:
+        import shutil
+        shutil.rmtree(tmp, ignore_errors=True)
+    return _r(False, tried=len(probes) + len(docs) + len(legal))
 
 
 def replay_broadcast(index, ob, seed, saved=None):
